@@ -33,7 +33,9 @@ Record life := {
   lp : task_st;                      (* the message-loop task (_process_messages) *)
   hook : nat;                        (* invocations of the connection_lost hook *)
   grp : grp_st;                      (* the TaskGroup block of process_messages *)
-  handlers : list (N * (task_st * bool));   (* handler tasks; the flag: it ended by raising *)
+  handlers : list (N * (task_st * bool));   (* handler tasks; the flag: its result() raises in the body of
+                                               process_messages - it ended with an exception, or cancelled although
+                                               nobody had requested it *)
   waiters : list (N * wait_st);      (* callers waiting for a response *)
   closed : bool;                     (* _closed_event *)
   closers : list (N * (close_st * option N));   (* close() calls; owner = the handler it runs in *)
